@@ -39,6 +39,53 @@ Lx, Rx = XS.Lx, XS.Rx
 
 CHOICE = {"CHOICE_LEFT": 1, "CHOICE_RIGHT": 2, "CHOICE_BOTH": 3}
 CNAME = {1: "Left", 2: "Right", 3: "Both"}
+CHOICE_RS = "fidget-core/src/vm/choice.rs"
+
+
+def choice_encoding(root=None):
+    """the discriminants of `Choice` as the source gives them -> {"Unknown": 0, "Left": 1, ..} (None: not literal)"""
+    from . import ast as A_
+
+    e = A_.find_item(CHOICE_RS, "EnumDef", "Choice", root)
+    out = {}
+    for v in e["variants"]:
+        d = v.get("disc") if isinstance(v, dict) else None
+        if d is None:
+            return None
+        val = A_.lit_value(d) if isinstance(d, dict) else d
+        try:
+            out[v["name"]] = int(val)
+        except Exception:  # noqa: BLE001
+            return None
+    return out
+
+
+def r_choice_encoding(rule, root=None):
+    """one byte per choice clause is shared by the interpreter (`choices[i] |= c`), the native code (`or [rsi], K`,
+    and the single-point and / or clauses that *compute* the byte as 2 - (lhs == 0) / (lhs == 0) + 1) and simplify:
+    Unknown is the empty byte, Both is Left | Right, and the computed bytes are Left = 1, Right = 2"""
+    from . import ast as A_
+
+    enc = choice_encoding(root)
+    if enc is None or set(enc) != {"Unknown", "Left", "Right", "Both"}:
+        rule.lost("literal discriminants of enum Choice")
+        return
+    if enc["Unknown"] == 0 and enc["Both"] == (enc["Left"] | enc["Right"]) and enc["Left"] != enc["Right"] and enc["Left"] and enc["Right"] and (enc["Left"] & enc["Right"]) == 0:
+        rule.ok("Choice is a two-bit set: Unknown = 0, Both = Left | Right", file=CHOICE_RS)
+    else:
+        rule.bad("encoding|lattice", "Choice's discriminants are %s: accumulating choices with `|=` (interpreter, native `or [rsi], k`) needs Unknown = 0, disjoint Left / Right bits and Both = Left | Right" % enc, CHOICE_RS)
+    if (enc["Left"], enc["Right"]) == (1, 2):
+        rule.ok("Left = 1, Right = 2: what the single-point and / or clauses compute arithmetically", file=CHOICE_RS)
+    else:
+        rule.bad("encoding|computed", "Choice::Left = %d, Choice::Right = %d, but the single-point `and` / `or` clauses compute their choice byte as 2 - (lhs == 0) and (lhs == 0) + 1, i.e. assume Left = 1 and Right = 2" % (enc["Left"], enc["Right"]), CHOICE_RS)
+    lib = A_.load("fidget-jit/src/lib.rs", root)
+    consts = {c.get("name"): A_.unparse(c.get("e") or {}).replace(" ", "") for c in A_.find(lib, "Const")}
+    for n_, v_ in (("CHOICE_LEFT", "Left"), ("CHOICE_RIGHT", "Right"), ("CHOICE_BOTH", "Both")):
+        t_ = consts.get(n_, "")
+        if t_.startswith("Choice::%sas" % v_):
+            rule.ok("%s is Choice::%s" % (n_, v_), file="fidget-jit/src/lib.rs")
+        else:
+            rule.bad("encoding|const|%s" % n_, "%s is `%s`; it must be Choice::%s" % (n_, t_, v_), "fidget-jit/src/lib.rs")
 
 
 class BM:
